@@ -110,18 +110,66 @@ CIRCS = {}
 
 
 def build(case):
-    c = Circuit()
-    qr = [c.add_q_register(n, s) for n, s in case["qregs"]]
-    cr = [c.add_c_register(n, s) for n, s in case["cregs"]]
-    allq = [r[i] for r in qr for i in range(r.size)]
-    allb = [r[i] for r in cr for i in range(r.size)]
+    """registers (default `Circuit(n, m)` ones and/or named ones), stray units `Qubit(name, i)` / `Bit(name, i)`
+    (gaps, registers not starting at 0), renamed units, blank wires removed"""
+    from pytket import Bit, Qubit
+    d = case.get("default")
+    c = Circuit(d[0], d[1]) if d else Circuit()
+    for n, s in case["qregs"]:
+        c.add_q_register(n, s)
+    for n, s in case["cregs"]:
+        c.add_c_register(n, s)
+    for n, i in case.get("stray_q", []):
+        c.add_qubit(Qubit(n, i))
+    for n, i in case.get("stray_b", []):
+        c.add_bit(Bit(n, i))
+    if case.get("rename") and c.qubits:
+        c.rename_units({c.qubits[0]: Qubit("renamed", 5)})
+    allq, allb = list(c.qubits), list(c.bits)
+    blank = set(case.get("blank_q", [])) if case.get("remove_blank") else set()
+    live = [q for i, q in enumerate(allq) if i not in blank] or allq[:1]
     for k, s in enumerate(case["symbols"]):
-        if allq:
-            c.Rz(Symbol(s), allq[k % len(allq)])
+        c.Rz(Symbol(s), live[k % len(live)])
+    for q in live:
+        c.H(q)
     for k, b in enumerate(allb):
-        if allq and k % 2 == 0:
-            c.Measure(allq[k % len(allq)], b)
+        if k % 2 == 0:
+            c.Measure(live[k % len(live)], b)
+    if case.get("remove_blank"):
+        c.remove_blank_wires()
     return c
+
+
+STUB_KINDS = ["exact", "exact", "drop_in", "extra_q", "swap", "owned", "bool_count", "int_out", "float_param", "none_out"]
+
+
+def make_stub(kind, r1, r2, nq, nb, npar):
+    """a stub signature as data + source, relative to the circuit's ACTUAL unit counts: the right one or a mutation"""
+    ins = [[["q"], True]] * nq + [[["a"], False]] * npar
+    outs = [["b"]] * nb
+    ins, outs = [list(map(lambda x: x, i)) for i in ins], list(outs)
+    if kind == "drop_in" and ins:
+        ins.pop(r1 % len(ins))
+    elif kind == "extra_q":
+        ins.insert(0, [["q"], True])
+    elif kind == "swap" and nq and npar:
+        ins = ins[nq:] + ins[:nq]
+    elif kind == "owned" and nq:
+        ins[r1 % nq] = [["q"], False]
+    elif kind == "bool_count":
+        outs = outs + [["b"]] if r2 % 2 == 0 or not outs else outs[:-1]
+    elif kind == "int_out" and outs:
+        outs[r1 % len(outs)] = ["o", 0]
+    elif kind == "float_param" and npar:
+        ins[nq + r1 % npar] = [["o", 1], False]
+    elif kind == "none_out":
+        outs = []
+
+    def py(t):
+        return {"q": "qubit", "a": "angle", "b": "bool"}.get(t[0]) or ["int", "float"][t[1] % 2]
+    params = [f"p{i}: {'qubit @ owned' if t == ['q'] and not io else py(t)}" for i, (t, io) in enumerate(ins)]
+    ret = "None" if not outs else py(outs[0]) if len(outs) == 1 else "tuple[" + ", ".join(py(o) for o in outs) + "]"
+    return {"kind": kind, "ins": ins, "outs": outs, "src": f"def stub({', '.join(params)}) -> {ret}: ..."}
 
 
 class Unsupported(Exception):
@@ -227,8 +275,12 @@ def main():
     for k, case in enumerate(req["cases"]):
         CIRCS[k] = build(case)
         if case.get("stub"):
+            c = CIRCS[k]
+            st = case["stub"]
+            if "src" not in st:      # relative description: built from the circuit's real unit counts
+                case["stub"] = st = make_stub(st["kind"], st["r1"], st["r2"], c.n_qubits, c.n_bits, len(c.free_symbols()))
             stub_lines.append(f"@guppy.pytket(reg.CIRCS[{k}])")
-            stub_lines.append(case["stub"]["src"].replace("def stub(", f"def stub_{k}("))
+            stub_lines.append(st["src"].replace("def stub(", f"def stub_{k}("))
             stub_lines.append("")
     with open("c26_stubs.py", "w") as f:
         f.write("\n".join(stub_lines))
@@ -244,6 +296,7 @@ def main():
             res["pytket"] = {"q_registers": [[r.name, r.size] for r in c.q_registers],
                              "c_registers": [[r.name, r.size] for r in c.c_registers],
                              "n_qubits": c.n_qubits, "n_bits": c.n_bits,
+                             "qubits": [str(q) for q in c.qubits], "bits": [str(b) for b in c.bits],
                              "symbols": sorted(str(s) for s in c.free_symbols()),
                              "registers_flatten_to_qubits": flat == list(c.qubits),
                              "q_registers_sorted": [r.name for r in c.q_registers] == sorted(r.name for r in c.q_registers)}
@@ -263,6 +316,7 @@ def main():
         except Exception as e:  # noqa: BLE001
             res["wiring"] = {"err": f"{type(e).__name__}: {e}", "tb": traceback.format_exc()[-1200:]}
         res["stub_accepted"] = None
+        res["stub"] = case.get("stub")
         if case.get("stub"):
             try:
                 getattr(stubs, f"stub_{k}").check()
